@@ -948,6 +948,53 @@ def constRefs (nodes : List AstNode) : List Nat :=
     slot; the hypothesis of `Casm.resolveIterativelyN_fixed_point`, validated on every certificate run) -/
 def refsWF (nodes : List AstNode) : Bool := (constRefs nodes).all fun r => !(labelRefs nodes).contains r
 
+/-! ## decidable facts about the front end's output (hypotheses of `Casm/Proofs/FullFix.lean`) -/
+
+/-- the symbol context after a node (as `resolve_once` and `match_all` track it) -/
+def stepCtx (st : Static) (sc : List String) : AstNode → List String
+  | .symbol _ _ _ _ (some r) => (st.decls.symbols.decls.getD r default).ctx
+  | _ => sc
+
+def ctxAfter (st : Static) (sc : List String) (pre : List AstNode) : List String := pre.foldl (stepCtx st) sc
+
+/-- the provider of `defs/data_block.rs` and `defs/symbol.rs`: no variable is known -/
+def pureP : SKProvider := { queryFunction := asmBuiltinKnown }
+
+/-- no rule parameter is named like a built-in inclusion function -/
+def paramsOKb (d0 : Defs) : Bool :=
+  d0.ruledefs.all fun rd => rd.rules.all fun r => r.params.all fun prm => !isAsmBuiltinName prm.1
+
+/-- `(i, node i)` for every position -/
+def positions (nodes : List AstNode) : List (Nat × AstNode) :=
+  (List.range nodes.length).filterMap fun i => (nodes[i]?).map fun n => (i, n)
+
+/-- the facts of `Casm.FrontOK`, decided: nothing is marked yet; instruction references and data
+    element references are pairwise distinct; an instruction flagged statically known has only
+    statically known candidates in the symbol context of its node; a data element flagged so has a
+    statically known expression; no label is flagged; a flagged symbol with a value is marked
+    resolved; no rule parameter is named like a built-in inclusion function -/
+def frontOKb (st : Static) (nodes : List AstNode) (d0 : Defs) : Bool :=
+  let pos := positions nodes
+  d0.instrs.all (fun i => !i.resolved) && d0.datas.all (fun x => !x.resolved)
+  && (pos.all fun p => match p.2 with
+      | .instr _ (some ref) =>
+        let ins := d0.instrs.getD ref default
+        (pos.all fun q => match q.2 with
+           | .instr _ (some ref') => ref' != ref || q.1 == p.1
+           | _ => true)
+        && (!ins.known || ins.cands.all fun c => matchKnown st.decls d0 (ctxAfter st [] (nodes.take p.1)) 64 c.m)
+      | .data _ es refs =>
+        (List.range es.length).all fun k =>
+          (!(d0.datas.getD (refs.getD k 0) default).known || staticallyKnown pureP (es.getD k default))
+          && (pos.all fun q => match q.2 with
+               | .data _ es' refs' => (List.range es'.length).all fun k' => refs'.getD k' 0 != refs.getD k 0 || (q.1 == p.1 && k' == k)
+               | _ => true)
+      | .symbol _ _ .label _ (some r) => !(d0.sym r).known
+      | _ => true)
+  && (!st.opts.optStatic || (List.range d0.symbols.length).all fun r =>
+        !(d0.sym r).known || (match (d0.sym r).value with | .unknown => true | _ => false) || (d0.sym r).resolved)
+  && paramsOKb d0
+
 /-- **Fixed-point certificate** (C02): a claimed final state is re-checked by one strict
     (guessing forbidden), non-first pass; it must be accepted, stable, silent and unchanged. -/
 def certify (opts : Opts) (fs : SrcFiles) (roots : List (List Char)) (claimed : StateDump) : Except String Unit :=
@@ -956,6 +1003,7 @@ def certify (opts : Opts) (fs : SrcFiles) (roots : List (List Char)) (claimed : 
   | .ok (st, nodes, defs) =>
     let d := defs.withDump claimed
     if !refsWF nodes then .error "model: a constant and a label share a symbol slot" else
+    if !frontOKb st nodes defs then .error "model: the front-end facts (frontOKb) do not hold" else
     match resolveOnce st nodes false true d with
     | .error (m, _) => .error ("strict pass fails: " ++ m)
     | .ok (d', stable, rep) =>
